@@ -2,6 +2,7 @@
   Helper lemmas about the STV file section model (VotelibModel.StvFile) for C19.
 -/
 import VotelibModel.StvFile
+import VotelibProofs.Lemmas.Blt
 import Mathlib.Data.List.Nodup
 import Mathlib.Algebra.Order.Ring.Rat
 import Mathlib.Tactic.Linarith
@@ -38,7 +39,7 @@ theorem loadHeader_cands : ∀ (zs : List ((String × Bool × String) × String)
     createSystem sc = .ok sys →
     (nk.map (fun (p : String × Nat) => p.1) ++ zs.map (fun (z : (String × Bool × String) × String) => z.2)).Nodup →
     loadHeader (zs.map (fun p => HLine.cand p.1.2.1 p.2 p.1.1) ++ [HLine.ballotsN n]) cs nk sc
-      = .ok (cs ++ zs.map (fun p => (p.1.1, p.1.2.1)), nk ++ enumFrom cs.length (zs.map (·.2)), sys, n)
+      = .ok (cs ++ zs.map (fun p => (p.1.1, p.1.2.1)), nk ++ enumFrom cs.length (zs.map (·.2)), sys, some n)
   | [], n, cs, nk, sc, sys, hsys, _ => by simp [loadHeader, enumFrom, hsys]
   | z :: t, n, cs, nk, sc, sys, hsys, hn => by
       have hfresh : z.2 ∉ nk.map (·.1) := by
@@ -91,7 +92,7 @@ theorem addVote_fresh : ∀ (bs : List (List Nat × Rat)) (b : List Nat) (w : Ra
 
 /-- what `wfStv` asks of one ballot -/
 def voteOK (nicks : List String) (b : List Nat × Weight) : Bool :=
-  b.1.all (· < nicks.length) && (b.2.spellable || !needMult (b.1.map (nickAt nicks)) b.2)
+  b.1.all (· < nicks.length) && decide (0 ≤ b.2.val) && (b.2.spellable || !needMult (b.1.map (nickAt nicks)) b.2)
 
 theorem loadVotes_line (nicks : List String) (hn : nicks.Nodup) (b : List Nat × Weight) (hb : voteOK nicks b = true)
     (n : Nat) (rest : List VLine) (i : Nat) (acc : List (List Nat × Rat)) :
@@ -100,7 +101,7 @@ theorem loadVotes_line (nicks : List String) (hn : nicks.Nodup) (b : List Nat ×
   obtain ⟨idx, w⟩ := b
   simp only [voteOK, Bool.and_eq_true, List.all_eq_true, decide_eq_true_eq, Bool.or_eq_true,
     Bool.not_eq_true'] at hb
-  obtain ⟨hidx, hsp⟩ := hb
+  obtain ⟨⟨hidx, _⟩, hsp⟩ := hb
   have hlk := lookupNicks_ok nicks hn idx hidx
   cases hm : needMult (idx.map (nickAt nicks)) w with
   | true =>
@@ -305,15 +306,25 @@ theorem sys_rt (d : SysDoc) (h : wfSys d = true) :
     (refine ⟨_, _, rfl, rfl, ?_⟩; simp [createSystem, sysTitle, sysMethod, sysQuotaSel, sysQuota, sysRandom,
       sysSeats, SysDoc.summary, knownQuotas, SVal.word, SVal.num, bind, Except.bind, pure, Except.pure])
 
-theorem load_dump (sd : SysDoc) (hsd : wfSys sd = true) (d : Doc Weight) (h : wfStv d = true) :
+theorem wf_no_negative (d : Doc Weight) (h : wfStv d = true) :
+    d.ballots.any (fun b => decide (b.2.val < 0)) = false := by
+  simp only [wfStv, Bool.and_eq_true, decide_eq_true_eq, List.all_eq_true] at h
+  rw [Bool.eq_false_iff]
+  intro hany
+  simp only [List.any_eq_true, decide_eq_true_eq] at hany
+  obtain ⟨b, hb, hneg⟩ := hany
+  have := (h.1 b hb).1.2
+  linarith
+
+theorem load_dump (sd : SysDoc) (hsd : wfSys sd = true) (d : Doc Weight) (h : wfStv d = true) (bl : List Blt.Line) :
     ∃ hv, dumpStv sd.toSys sd.seatsArg true d = .ok hv ∧
-      loadStv hv.1 hv.2 = .ok (eraseDoc d, d.cands.map (fun c => (c.1, c.2.1)), sd.summary) := by
+      loadStv hv.1 hv.2 bl = .ok (eraseDoc d, d.cands.map (fun c => (c.1, c.2.1)), sd.summary) := by
   obtain ⟨ls, c, hls, hcol, hsys⟩ := sys_rt sd hsd
   refine ⟨((ls ++ (match sd.seatsArg with | some n => [("seats", SVal.num n)] | none => [])).map (fun p => HLine.other p.1 p.2)
       ++ (d.cands.zip (candidateNicks (d.cands.map (·.2.2)))).map (fun p => HLine.cand p.1.2.1 p.2 p.1.1)
       ++ [HLine.ballotsN d.ballots.length],
     d.ballots.map (voteLine (candidateNicks (d.cands.map (·.2.2)))) ++ [VLine.endLine]), ?_, ?_⟩
-  · simp only [dumpStv, hls, ok_bind, pure_eq]
+  · simp only [dumpStv, hls, ok_bind, pure_eq, wf_no_negative d h]
     rfl
   simp only [wfStv, Bool.and_eq_true, decide_eq_true_eq, List.all_eq_true] at h
   obtain ⟨hall, hbn⟩ := h
@@ -358,8 +369,8 @@ theorem sysMethod_err (sc) (e : Err) (h : sysMethod sc = .error e) : StvErr e :=
   unfold sysMethod at h; stv_err_cases h
 theorem sysQuotaSel_err (m sc) (e : Err) (h : sysQuotaSel m sc = .error e) : StvErr e := by
   unfold sysQuotaSel at h; simp only at h; stv_err_cases h
-theorem sysQuota_err (q) (e : Err) (h : sysQuota q = .error e) : StvErr e := by
-  unfold sysQuota at h; stv_err_cases h
+theorem sysQuota_err (b q) (e : Err) (h : sysQuota b q = .error e) : StvErr e := by
+  cases q <;> simp only [sysQuota] at h <;> stv_err_cases h
 theorem sysRandom_err (sc) (e : Err) (h : sysRandom sc = .error e) : StvErr e := by
   unfold sysRandom at h; stv_err_cases h
 theorem sysSeats_err (sc) (e : Err) (h : sysSeats sc = .error e) : StvErr e := by
@@ -373,8 +384,8 @@ theorem createSystem_err (sc : Comps) (e : Err) (h : createSystem sc = .error e)
     cases h3 : sysQuotaSel m sc with
     | error e' => simp only [h2, h3, ok_bind, err_bind] at h; cases h; exact sysQuotaSel_err m sc _ h3
     | ok qm =>
-      cases h4 : sysQuota qm.1 with
-      | error e' => simp only [h2, h3, h4, ok_bind, err_bind] at h; cases h; exact sysQuota_err _ _ h4
+      cases h4 : sysQuota (decide (m = "blt")) qm.1 with
+      | error e' => simp only [h2, h3, h4, ok_bind, err_bind] at h; cases h; exact sysQuota_err _ _ _ h4
       | ok q =>
         cases h5 : sysRandom sc with
         | error e' => simp only [h2, h3, h4, h5, ok_bind, err_bind] at h; cases h; exact sysRandom_err sc _ h5
@@ -395,7 +406,11 @@ theorem loadHeader_err : ∀ (hs : List HLine) (cs : List (String × Bool)) (nk 
       cases hc : createSystem sc with
       | error e' => rw [hc] at h; simp at h; subst h; exact createSystem_err sc e' hc
       | ok sys => rw [hc] at h; simp at h
-  | .ballotsBlt :: _, _, _, _, e, h => by simp [loadHeader] at h; subst h; simp [StvErr]
+  | .ballotsBlt :: _, _, _, sc, e, h => by
+      simp only [loadHeader] at h
+      cases hc : createSystem sc with
+      | error e' => rw [hc] at h; simp at h; subst h; exact createSystem_err sc e' hc
+      | ok sys => rw [hc] at h; simp at h
   | .ballotsBad :: _, _, _, sc, e, h => by
       simp only [loadHeader] at h
       cases hc : createSystem sc with
@@ -443,16 +458,282 @@ theorem loadVotes_err (nk : List (String × Nat)) (n : Nat) : ∀ (vs : List VLi
         | error e' => rw [hl] at h; simp at h; subst h; exact Or.inl (lookupNicks_err nk _ _ hl)
         | ok b => rw [hl] at h; simp only [ok_bind] at h; exact loadVotes_err nk n rest _ _ e h
 
-theorem loadStv_err (hs : List HLine) (vs : List VLine) (e : Err) (h : loadStv hs vs = .error e) : StvErr e := by
+theorem loadStv_err (hs : List HLine) (vs : List VLine) (bl : List Blt.Line) (e : Err)
+    (h : loadStv hs vs bl = .error e) : StvErr e := by
   simp only [loadStv] at h
   cases hh : loadHeader hs [] [] {} with
   | error e' => rw [hh] at h; simp at h; subst h; exact loadHeader_err _ _ _ _ _ hh
   | ok r =>
-    obtain ⟨cs, nk, sys, n⟩ := r
+    obtain ⟨cs, nk, sys, n?⟩ := r
     rw [hh] at h
     simp only [ok_bind] at h
-    cases hv : loadVotes nk n vs 0 [] with
-    | error e' => rw [hv] at h; simp at h; subst h; exact loadVotes_err _ _ _ _ _ _ hv
-    | ok bs => rw [hv] at h; simp at h
+    cases n? with
+    | some n =>
+      simp only at h
+      cases hv : loadVotes nk n vs 0 [] with
+      | error e' => rw [hv] at h; simp at h; subst h; exact loadVotes_err _ _ _ _ _ _ hv
+      | ok bs => rw [hv] at h; simp at h
+    | none =>
+      simp only at h
+      cases hb : Blt.loadBlt bl with
+      | error e' => rw [hb] at h; simp at h; subst h; exact Or.inl (Blt.loadBlt_err bl e' hb)
+      | ok d => rw [hb] at h; simp at h
+
+/-! ### the writer's refusals -/
+theorem dumpStv_negative (sys : Sys) (arg : Option Nat) (namesOK : Bool) (d : Doc Weight)
+    (h : ∃ b ∈ d.ballots, b.2.val < 0) : ∃ e, dumpStv sys arg namesOK d = .error e := by
+  have hany : d.ballots.any (fun b => decide (b.2.val < 0)) = true := by
+    obtain ⟨b, hb, hneg⟩ := h
+    exact List.any_eq_true.2 ⟨b, hb, by simpa using hneg⟩
+  simp only [dumpStv]
+  cases hs : dumpSys sys with
+  | error e => exact ⟨e, by simp⟩
+  | ok ls =>
+    cases namesOK with
+    | false => exact ⟨notSupported, by simp⟩
+    | true => exact ⟨notSupported, by simp [hany]⟩
+
+theorem dumpTb_err : ∀ (tb : Tb) (e : Err), dumpTb tb = .error e → e = notSupported
+  | .pre ok inner, e, h => by
+      simp only [dumpTb] at h
+      split at h
+      · exact dumpTb_err inner e h
+      · simp at h; exact h.symm
+  | .order, e, h => by simp [dumpTb] at h
+  | .sortitor (some n), e, h => by simp [dumpTb] at h
+  | .sortitor none, e, h => by simp [dumpTb] at h
+  | .unsupported, e, h => by simp [dumpTb] at h; exact h.symm
+
+theorem dumpTv_err (a b c : Bool) (q : Option String) (m : Bool) (e : Err) (h : dumpTv a b c q m = .error e) :
+    e = notSupported := by
+  unfold dumpTv at h
+  cases a <;> cases b <;> cases c <;> simp at h <;> (try exact h.symm)
+  rcases q with _ | n
+  · simp at h
+  · simp only at h
+    split at h
+    · simp at h
+    · simp at h; exact h.symm
+
+theorem dumpSys_err : ∀ (sys : Sys) (e : Err), dumpSys sys = .error e → e = notSupported
+  | .voting none s, e, h => by simp only [dumpSys] at h; exact dumpSys_err s e h
+  | .voting (some (name, ok)) s, e, h => by
+      simp only [dumpSys] at h
+      cases ok with
+      | false => simp at h; exact h.symm
+      | true =>
+        simp only [Bool.not_true, Bool.false_eq_true, if_false] at h
+        cases hs : dumpSys s with
+        | error e' => rw [hs] at h; simp at h; subst h; exact dumpSys_err s e' hs
+        | ok r => rw [hs] at h; simp at h
+  | .fixed n s, e, h => by
+      simp only [dumpSys] at h
+      cases hs : dumpSys s with
+      | error e' => rw [hs] at h; simp at h; subst h; exact dumpSys_err s e' hs
+      | ok r => rw [hs] at h; simp at h
+  | .tie m tb, e, h => by
+      simp only [dumpSys] at h
+      cases hs : dumpSys m with
+      | error e' => rw [hs] at h; simp at h; subst h; exact dumpSys_err m e' hs
+      | ok r =>
+        rw [hs] at h
+        simp only [ok_bind] at h
+        cases ht : dumpTb tb with
+        | error e' => rw [ht] at h; simp at h; subst h; exact dumpTb_err tb e' ht
+        | ok t => rw [ht] at h; simp at h
+  | .tv a b c q m, e, h => by simp only [dumpSys] at h; exact dumpTv_err a b c q m e h
+  | .other, e, h => by simp [dumpSys] at h
+
+/-- whatever the writer refuses, it refuses with NotSupportedInSTV -/
+theorem dumpStv_err (sys : Sys) (arg : Option Nat) (namesOK : Bool) (d : Doc Weight) (e : Err)
+    (h : dumpStv sys arg namesOK d = .error e) : e = notSupported := by
+  simp only [dumpStv] at h
+  cases hs : dumpSys sys with
+  | error e' => rw [hs] at h; simp at h; subst h; exact dumpSys_err sys e' hs
+  | ok ls =>
+    rw [hs] at h
+    simp only [ok_bind] at h
+    cases namesOK with
+    | false => simp at h; exact h.symm
+    | true =>
+      simp only [Bool.not_true, Bool.false_eq_true, if_false] at h
+      split at h
+      · simp at h; exact h.symm
+      · simp at h
+
+/-! ### BLT mode -/
+def bltSummary (seats : Nat) : Summary :=
+  { title := none, seats := some (seats : Int), quota := Quota.unknown, mandatory := false, random := none }
+
+theorem load_dump_blt (d : Blt.Doc Blt.Weight) (h : Blt.WFdoc d = true) (vs : List VLine) :
+    ∃ hv, dumpStvBlt d = .ok hv ∧
+      loadStv hv.1 vs hv.2 = .ok ({ cands := d.cands.map (fun c => (c.1, c.2, "")),
+                                    ballots := d.ballots.map (fun b => (b.1, b.2.val)) }, d.cands, bltSummary d.nSeats) := by
+  have h' : Blt.WFdoc { d with title := none } = true := by simpa [Blt.WFdoc] using h
+  obtain ⟨ls, hd, hl⟩ := Blt.load_dump _ h'
+  refine ⟨([HLine.other "method" (SVal.word "blt"), HLine.ballotsBlt], ls), ?_, ?_⟩
+  · simp [dumpStvBlt, hd]
+  · have hh : loadHeader [HLine.other "method" (SVal.word "blt"), HLine.ballotsBlt] [] [] {}
+        = .ok ([], [], { title := none, seats := none, quota := Quota.unknown, mandatory := false, random := none }, none) := by
+      rfl
+    simp only [loadStv, hh, ok_bind, hl]
+    cases hc : d.cands with
+    | nil => simp [bltMode, Blt.eraseDoc, hc, bltSummary, pure, Except.pure]
+    | cons c t => simp [bltMode, Blt.eraseDoc, hc, bltSummary, pure, Except.pure]
+
+/-! ### a returned ballot names candidates of the returned list -/
+def NkOK (nk : List (String × Nat)) (n : Nat) : Prop := ∀ p ∈ nk, p.2 < n
+
+theorem nickSet_ok : ∀ (nk : List (String × Nat)) (k : String) (v n : Nat), NkOK nk n → v < n → NkOK (nickSet nk k v) n
+  | [], k, v, n, _, hv => by intro p hp; simp [nickSet] at hp; subst hp; exact hv
+  | (k', v') :: t, k, v, n, h, hv => by
+      intro p hp
+      simp only [nickSet] at hp
+      split at hp
+      · rcases List.mem_cons.1 hp with rfl | hm
+        · exact hv
+        · exact h p (List.mem_cons_of_mem _ hm)
+      · rcases List.mem_cons.1 hp with rfl | hm
+        · exact h _ List.mem_cons_self
+        · exact nickSet_ok t k v n (fun q hq => h q (List.mem_cons_of_mem _ hq)) hv p hm
+
+theorem loadHeader_nk : ∀ (hs : List HLine) (cs : List (String × Bool)) (nk : List (String × Nat)) (sc : Comps)
+    (cs' : List (String × Bool)) (nk' : List (String × Nat)) (sys : Summary) (n? : Option Nat),
+    loadHeader hs cs nk sc = .ok (cs', nk', sys, n?) → NkOK nk cs.length → NkOK nk' cs'.length
+  | [], _, _, _, _, _, _, _, h, _ => by simp [loadHeader] at h
+  | .blank :: rest, cs, nk, sc, cs', nk', sys, n?, h, hk => by
+      simp only [loadHeader] at h; exact loadHeader_nk rest cs nk sc cs' nk' sys n? h hk
+  | .invalid :: _, _, _, _, _, _, _, _, h, _ => by simp [loadHeader] at h
+  | .cand w nick name :: rest, cs, nk, sc, cs', nk', sys, n?, h, hk => by
+      simp only [loadHeader] at h
+      refine loadHeader_nk rest _ _ sc cs' nk' sys n? h ?_
+      have hlen : (cs ++ [(name, w)]).length = cs.length + 1 := by simp
+      rw [hlen]
+      exact nickSet_ok nk nick cs.length (cs.length + 1) (fun p hp => Nat.lt_succ_of_lt (hk p hp)) (Nat.lt_succ_self _)
+  | .candBad :: _, _, _, _, _, _, _, _, h, _ => by simp [loadHeader] at h
+  | .ballotsN n :: _, cs, nk, sc, cs', nk', sys, n?, h, hk => by
+      simp only [loadHeader] at h
+      cases hc : createSystem sc with
+      | error e' => rw [hc] at h; simp at h
+      | ok s0 => rw [hc] at h; simp at h; obtain ⟨rfl, rfl, _, _⟩ := h; exact hk
+  | .ballotsBlt :: _, cs, nk, sc, cs', nk', sys, n?, h, hk => by
+      simp only [loadHeader] at h
+      cases hc : createSystem sc with
+      | error e' => rw [hc] at h; simp at h
+      | ok s0 => rw [hc] at h; simp at h; obtain ⟨rfl, rfl, _, _⟩ := h; exact hk
+  | .ballotsBad :: _, _, _, sc, _, _, _, _, h, _ => by
+      simp only [loadHeader] at h
+      cases hc : createSystem sc with
+      | error e' => rw [hc] at h; simp at h
+      | ok s0 => rw [hc] at h; simp at h
+  | .order _ :: _, _, _, _, _, _, _, _, h, _ => by simp [loadHeader] at h
+  | .other k v :: rest, cs, nk, sc, cs', nk', sys, n?, h, hk => by
+      simp only [loadHeader] at h
+      cases hc : compsAdd sc k v with
+      | error e' => rw [hc] at h; simp at h
+      | ok c1 => rw [hc] at h; simp only [ok_bind] at h; exact loadHeader_nk rest cs nk c1 cs' nk' sys n? h hk
+
+theorem lookup_mem : ∀ (nk : List (String × Nat)) (s : String) (i : Nat), nk.lookup s = some i → (s, i) ∈ nk
+  | [], _, _, h => by simp [List.lookup] at h
+  | (k, v) :: t, s, i, h => by
+      simp only [List.lookup] at h
+      split at h
+      · rename_i heq
+        have : s = k := by simpa using heq
+        cases h; subst this; exact List.mem_cons_self
+      · exact List.mem_cons_of_mem _ (lookup_mem t s i h)
+
+theorem lookupNicks_valid (nk : List (String × Nat)) (n : Nat) (hk : NkOK nk n) : ∀ (l : List String) (idx : List Nat),
+    lookupNicks nk l = .ok idx → ∀ i ∈ idx, i < n
+  | [], idx, h => by simp [lookupNicks] at h; subst h; simp
+  | s :: t, idx, h => by
+      simp only [lookupNicks] at h
+      split at h
+      · rename_i j hj
+        cases ht : lookupNicks nk t with
+        | error e' => rw [ht] at h; simp at h
+        | ok r =>
+          rw [ht] at h; simp at h; subst h
+          intro i hi
+          rcases List.mem_cons.1 hi with rfl | hm
+          · exact hk _ (lookup_mem nk s _ hj)
+          · exact lookupNicks_valid nk n hk t r ht i hm
+      · simp at h
+
+def BallotsOK (bs : List (List Nat × Rat)) (n : Nat) : Prop := ∀ b ∈ bs, ∀ i ∈ b.1, i < n
+
+theorem addVote_ok : ∀ (bs : List (List Nat × Rat)) (b : List Nat) (w : Rat) (n : Nat), BallotsOK bs n →
+    (∀ i ∈ b, i < n) → BallotsOK (addVote bs b w) n
+  | [], b, w, n, _, hb => by intro x hx; simp [addVote] at hx; subst hx; exact hb
+  | (b', w') :: t, b, w, n, h, hb => by
+      intro x hx
+      simp only [addVote] at hx
+      split at hx
+      · rcases List.mem_cons.1 hx with rfl | hm
+        · exact fun i hi => h (b', w') List.mem_cons_self i hi
+        · exact h x (List.mem_cons_of_mem _ hm)
+      · rcases List.mem_cons.1 hx with rfl | hm
+        · exact h _ List.mem_cons_self
+        · exact addVote_ok t b w n (fun q hq => h q (List.mem_cons_of_mem _ hq)) hb x hm
+
+theorem loadVotes_valid (nk : List (String × Nat)) (m : Nat) (hk : NkOK nk m) (n : Nat) : ∀ (vs : List VLine) (i : Nat)
+    (acc bs : List (List Nat × Rat)), loadVotes nk n vs i acc = .ok bs → BallotsOK acc m → BallotsOK bs m
+  | [], _, _, _, h, _ => by simp [loadVotes] at h
+  | .endLine :: _, i, acc, bs, h, ha => by
+      simp only [loadVotes] at h
+      split at h
+      · simp at h
+      · simp at h; subst h; exact ha
+  | .blank :: rest, i, acc, bs, h, ha => by simp only [loadVotes] at h; exact loadVotes_valid nk m hk n rest _ _ bs h ha
+  | .items first more :: rest, i, acc, bs, h, ha => by
+      simp only [loadVotes] at h
+      cases first with
+      | mult r =>
+        simp only at h
+        cases hl : lookupNicks nk more with
+        | error e' => rw [hl] at h; simp at h
+        | ok b =>
+          rw [hl] at h; simp only [ok_bind] at h
+          exact loadVotes_valid nk m hk n rest _ _ bs h (addVote_ok acc b r m ha (lookupNicks_valid nk m hk _ _ hl))
+      | multBad => simp at h
+      | word s =>
+        simp only at h
+        cases hl : lookupNicks nk (s :: more) with
+        | error e' => rw [hl] at h; simp at h
+        | ok b =>
+          rw [hl] at h; simp only [ok_bind] at h
+          exact loadVotes_valid nk m hk n rest _ _ bs h (addVote_ok acc b 1 m ha (lookupNicks_valid nk m hk _ _ hl))
+
+theorem loadStv_valid (hs : List HLine) (vs : List VLine) (bl : List Blt.Line) (r : Doc Rat × List (String × Bool) × Summary)
+    (h : loadStv hs vs bl = .ok r) : ∀ b ∈ r.1.ballots, ∀ i ∈ b.1, i < r.2.1.length := by
+  simp only [loadStv] at h
+  cases hh : loadHeader hs [] [] {} with
+  | error e' => rw [hh] at h; simp at h
+  | ok r0 =>
+    obtain ⟨cs, nk, sys, n?⟩ := r0
+    rw [hh] at h
+    simp only [ok_bind] at h
+    have hk : NkOK nk cs.length := loadHeader_nk hs [] [] {} cs nk sys n? hh (by intro p hp; simp at hp)
+    cases n? with
+    | some n =>
+      simp only at h
+      cases hv : loadVotes nk n vs 0 [] with
+      | error e' => rw [hv] at h; simp at h
+      | ok bs =>
+        rw [hv] at h; simp at h; subst h
+        exact loadVotes_valid nk cs.length hk n vs 0 [] bs hv (by intro b hb; simp at hb)
+    | none =>
+      simp only at h
+      cases hb : Blt.loadBlt bl with
+      | error e' => rw [hb] at h; simp at h
+      | ok d =>
+        rw [hb] at h; simp at h; subst h
+        have hval := Blt.loadBlt_valid bl d hb
+        intro b hbm i hi
+        have hlt := hval b hbm i hi
+        simp only [bltMode]
+        cases hc : d.cands with
+        | nil => rw [hc] at hlt; simp at hlt
+        | cons c t => rw [hc] at hlt; simpa using hlt
 
 end VL.StvFile
